@@ -59,6 +59,10 @@ def run(lines, out, args):
                 I = InterfaceClass(twin_of.__name__ if twin_of is not None else "I%d_%s" % (serial, f[1]), bases_t, attrs, __module__="zi.gen")
                 for n, d in funcs.items():
                     descs[id(I.direct(n))] = d
+                # the namespace given to the constructor is the CALLER's dictionary (a builder re-uses one scratch dict for the
+                # next interface): what it holds afterwards is no business of the interface created from it
+                attrs.clear()
+                attrs["zz_scratch"] = Attribute("left over in the builder's scratch namespace")
                 for e in lst(f[4]):
                     t, v = e.split(":")
                     I.setTaggedValue(t, None if int(v) == 999 else int(v))      # 999 stands for a tag whose value is None
